@@ -590,7 +590,13 @@ void Parser::ParserImpl::loadModel(const ModelPtr &model, const std::string &inp
         childNode = childNode->next();
     }
 
-    if (!encapsulationNodes.empty()) {
+    if (mParsing1XVersion) {
+        // A CellML 1.x model may describe its encapsulation hierarchy with any
+        // number of groups.
+        for (const auto &encapsulationNode : encapsulationNodes) {
+            loadEncapsulation(model, encapsulationNode);
+        }
+    } else if (!encapsulationNodes.empty()) {
         loadEncapsulation(model, encapsulationNodes.at(0));
         if (encapsulationNodes.size() > 1) {
             auto issue = Issue::IssueImpl::create();
@@ -1493,10 +1499,25 @@ void Parser::ParserImpl::loadEncapsulation(const ModelPtr &model, const XmlNodeP
     XmlNodePtr componentRefNode = node->firstChild();
     while (componentRefNode != nullptr) {
         ComponentPtr parentComponent = nullptr;
+        ComponentPtr previousParentComponent = nullptr;
         std::string encapsulationId;
         bool haveComponentRef = false;
         if (parseNode(componentRefNode, "component_ref")) {
             haveComponentRef = true;
+            if (mParsing1XVersion) {
+                // A previous group of a CellML 1.x model may already have given
+                // this component a parent.
+                auto attribute = componentRefNode->firstAttribute();
+                while (attribute != nullptr) {
+                    if (attribute->isType("component")) {
+                        auto component = model->component(attribute->value(), true);
+                        if (component != nullptr) {
+                            previousParentComponent = std::dynamic_pointer_cast<Component>(component->parent());
+                        }
+                    }
+                    attribute = attribute->next();
+                }
+            }
             parentComponent = loadComponentRef(model, componentRefNode, usedNames);
         } else if (componentRefNode->isText()) {
             const std::string textNode = componentRefNode->convertToString();
@@ -1526,7 +1547,10 @@ void Parser::ParserImpl::loadEncapsulation(const ModelPtr &model, const XmlNodeP
 
         // Add the parentComponent to the model with its child(ren) encapsulated.
         if (parentComponent) {
-            model->addComponent(parentComponent);
+            if ((previousParentComponent == nullptr)
+                || !previousParentComponent->addComponent(parentComponent)) {
+                model->addComponent(parentComponent);
+            }
             if (parentComponent->componentCount() == 0) {
                 auto issue = Issue::IssueImpl::create();
                 issue->mPimpl->setDescription("Encapsulation in model '" + model->name() + "' specifies '" + parentComponent->name() + "' as a parent component_ref but it does not have any children.");
